@@ -8,7 +8,7 @@ RULE = ("gated scenarios against the real ServiceRunner in worker processes (acc
         "every falsy return value x registration: queued, adopted from outside, adopted from inside a payload of each "
         "flavour, service created before / after start; failures of the call itself, plain callables, ~40 exception classes "
         "incl. those asyncio re-creates between futures, exception objects as return values), released together by a gate "
-        "once everything has started; in one scenario out of seven the runtime object has already been through a blocking run that ended by a failure; asyncio bystanders that suppress one to three cancellations; the "
+        "once everything has started; one scenario in eight is about a single payload returning a falsy value; in one scenario out of seven the runtime object has already been through a blocking run that ended by a failure; asyncio bystanders that suppress one to three cancellations; the "
         "logged events are replayed on the Lean LTS (subset-construction acceptor) and the outcome is judged by the "
         "oracle; non-trivial = at least two payloads; distinct = distinct scenario")
 ASSUMPTIONS = ["asyncio / trio / threading semantics enter the model as enabling conditions of its events (DESIGN §7.1): assumptions",
